@@ -792,7 +792,10 @@ theorem reachable_noFault_claimed_blocks_partial (hc : CfgOK cfg) {g : GState} (
   have hblk' : findBlock g.s b = .ok blk := hblk
   exact h.dummyApart_nonempty hc blk (Mem.findBlock_ok hblk').1 (hnz blk hblk')
 
-/-- TARGET (not proved): the same for zero-sized blocks, which together with `C10.reachable_noFault_partial` would be
+/-- RESOLVED — PROVED AS STATED: `C10.reachable_noFault_claimed_blocks_holds` in Props/Targets.lean (every live block,
+    also an empty one, ends at or below `2^62`: `Arena.Hist.ReachableLow.blocksLow`, Lemmas/TargetsZst*.lean).
+    Original comment:
+    TARGET (not proved): the same for zero-sized blocks, which together with `C10.reachable_noFault_partial` would be
     the full no-fault theorem.  Missing: `Inv` (frozen) says nothing about the ADDRESS of a zero-sized live block
     (`LiveOK.placed` speaks about non-empty blocks only); one needs the additional invariant "every live block,
     also an empty one, lies inside a chunk", preserved by all constructors that register blocks. -/
